@@ -148,6 +148,8 @@ Pre(s, op, a) ==
     [] op = "dH" -> s.rs.kind # None /\ a.j \in DOMAIN s.rs.items
     \* the user assigns a chemical's heat of formation and refreshes the compiled constants
     [] op = "set_Hf" -> a.i \in Chems
+    \* the conversion of one member is assigned (through the member or through the set): later heats of reaction use it
+    [] op = "set_X" -> s.rs.kind # None /\ a.j \in DOMAIN s.rs.items /\ ~RLt(a.X, Zero) /\ ~RLt(One, a.X)
     \* a conversion that would make a flow negative (in the phase the reaction names) must be refused (C05): judged below
     [] op = "react" -> /\ s.rs.kind # None /\ Fits(s.rs, s.kind)
     [] op = "adiabatic" -> /\ s.rs.kind # None /\ Fits(s.rs, s.kind) /\ NonNegT(ApplySet(s.rs, s.kind, s.m))
@@ -160,6 +162,7 @@ Post(s, op, a) ==
     [] op = "load" -> [s EXCEPT !.rs = a.set]
     [] op = "dH" -> s
     [] op = "set_Hf" -> [s EXCEPT !.hf[a.i] = a.v]
+    [] op = "set_X" -> [s EXCEPT !.rs.items[a.j].X = a.X]
     [] op = "react" -> [s EXCEPT !.m = ApplySet(s.rs, s.kind, s.m)]
     [] op = "adiabatic" -> LET mm == ApplySet(s.rs, s.kind, s.m) IN [s EXCEPT !.m = mm, !.d3 = Round(AdiabaticD3(s, mm, a.Q))]
 
@@ -172,7 +175,7 @@ Judge(s, e) ==
       u == e.post
       exp == Post(s, e.op, a) IN
   IF e.obs.exc # None /\ ~(e.op = "react" /\ ~NonNegT(ApplySet(s.rs, s.kind, s.m))) THEN "exception"
-  ELSE IF e.op \in {"set_feed", "load", "set_Hf"} THEN (IF u # exp THEN "frame" ELSE "ok")
+  ELSE IF e.op \in {"set_feed", "load", "set_Hf", "set_X"} THEN (IF u # exp THEN "frame" ELSE "ok")
   ELSE IF e.op = "dH" THEN
        IF u # s THEN "frame"
        ELSE IF ~NearQ(e.obs.dH, RMul(DH(s.hf, s.rs.items[a.j], s.rs.basis), R(Scale)), 1) THEN "dH.value" ELSE "ok"
@@ -192,6 +195,8 @@ Judge(s, e) ==
             ELSE "ok"
        ELSE IF Abs(e.obs.Hnet1 - (e.obs.Hnet0 + a.Q * Scale)) > 2 + Ceil(CFlow(exp.m)) \div 100 THEN "adiabatic.balance"
             ELSE IF ~NearQ(u.d3, AdiabaticD3(s, exp.m, a.Q), 2) THEN "adiabatic.temperature"
+            \* the same material and heat input scaled by 2^-30 ends at the same temperature (1e-6 K units; 1e-3 K allowed)
+            ELSE IF e.obs.scaled_dT > 1000 THEN "adiabatic.not_scale_invariant"
             ELSE "ok"
 Legal(s) == WellFormed(s) /\ (s.rs.kind = None \/ SetOK(s.rs))
 ObsLegal(e) == TRUE
@@ -231,7 +236,8 @@ React == "react" \in Ops /\ rs.kind # None /\ NonNegT(ApplySet(rs, kind, m)) /\ 
 Adiabatic == "adiabatic" \in Ops /\ \E q \in QVals : Act("adiabatic", [Q |-> q])
 SetHf == "set_Hf" \in Ops /\ \E i \in HfChems, v \in HfVals : Act("set_Hf", [i |-> i, v |-> v])
 Warm == "warm" \in Ops /\ \E dd \in DVals : Act("set_feed", [kind |-> kind, m |-> m, d3 |-> dd])
-Next == Load \/ React \/ Adiabatic \/ Warm \/ SetHf
+SetX == "set_X" \in Ops /\ rs.kind # None /\ \E j \in DOMAIN rs.items, x \in XVals : Act("set_X", [j |-> j, X |-> x])
+Next == Load \/ React \/ Adiabatic \/ Warm \/ SetHf \/ SetX
 vars == <<kind, m, d3, rs, hf, added, path>>
 Spec == Init /\ [][Next]_vars
 
